@@ -10,7 +10,7 @@ from mon.ref import mdp as Rf
 from mon.ref import gain as Gn
 
 PROP = "C16"
-CASES = {"quick": 500, "thorough": 8000}
+CASES = {"quick": 500, "thorough": 40000}
 CASE_TIMEOUT = 90
 REQUIRED = ["plan_calls", "converged_discounted", "converged_undiscounted", "gain_entries_compared",
             "value_entries_compared", "policy_rows_checked"]
